@@ -292,6 +292,23 @@ func solveObligation(ob *Obligation, timeout int, dump bool) {
 			ob.Result.Model = out
 		}
 	}
+	if ob.Expect == "" && (ob.Result.Status == "unknown" || ob.Result.Status == "timeout") {
+		// candidate-finding query: drop the quantified hypotheses (an under-approximation of the
+		// assumptions); a model of the rest is only a candidate failing input
+		var b strings.Builder
+		for _, l := range strings.Split(u.Script(ob.ScriptLn, "(not "+ob.Goal+")", true), "\n") {
+			if strings.HasPrefix(l, "(assert") && (strings.Contains(l, "(forall ") || strings.Contains(l, "(exists ")) {
+				continue
+			}
+			b.WriteString(l)
+			b.WriteString("\n")
+		}
+		cfile := writeSMT(ob.Name+".cand", b.String())
+		st, out, _ := runSolver(nil2ctx(), solvers[0], cfile, 5)
+		if st == "sat" {
+			ob.Result.Candidate = out
+		}
+	}
 	if dump {
 		fmt.Fprintf(os.Stderr, "[dump] %s -> %s (%s)\n", ob.Name, file, ob.Result.Status)
 	}
@@ -402,6 +419,9 @@ func (res *CheckResult) Report(o CheckOpts) int {
 			} else if ob.Result.Output != "" {
 				fmt.Fprintf(&body, "\nsolver output:\n%s\n", firstLines(ob.Result.Output, 30))
 			}
+			if ob.Result.Candidate != "" {
+				fmt.Fprintf(&body, "\ncandidate counterexample (model of the quantifier-free part of the hypotheses; a candidate only):\n%s\n", candidateSummary(ob.Result.Candidate))
+			}
 		}
 		path := writeReplayFile(prop, ob.Name, body.String())
 		fmt.Printf("VIOLATION property=%s replay=%s%s\n", prop, path, suffix)
@@ -428,6 +448,29 @@ func (res *CheckResult) Report(o CheckOpts) int {
 		return 1
 	}
 	return 0
+}
+
+// candidateSummary extracts the interesting constants (parameters, locals) from a model.
+func candidateSummary(model string) string {
+	var out []string
+	lines := strings.Split(model, "\n")
+	for i := 0; i < len(lines); i++ {
+		l := strings.TrimSpace(lines[i])
+		if strings.HasPrefix(l, "(define-fun |p$") || strings.HasPrefix(l, "(define-fun |L$") || strings.HasPrefix(l, "(define-fun |res!") {
+			v := ""
+			if i+1 < len(lines) {
+				v = strings.TrimSpace(lines[i+1])
+			}
+			if len(v) > 200 {
+				v = v[:200] + "..."
+			}
+			out = append(out, l+" "+v)
+		}
+	}
+	if len(out) > 60 {
+		out = out[:60]
+	}
+	return strings.Join(out, "\n")
 }
 
 func firstLines(s string, n int) string {
